@@ -1,3 +1,35 @@
-(* C13 proofs: invariant and refinement of the ring model to the FIFO spec. *)
+(* C13 proofs: invariant and refinement of the ring model to the FIFO spec.
+   The development is split over
+     CbufRing.v   ring arithmetic, get/put characterisation, block = byte-wise versions
+     CbufInv.v    Inv, create, bounds, read/peek/drop
+     CbufWrite.v  commit_write, grow, writer_prep, write
+     CbufLines.v  find_unread_line, lines_used, read_line
+     CbufFd.v     write_from_fd
+   and re-exported here, together with write_line. *)
 From PV Require Import Cbuf.CbufDefs Cbuf.CbufSpec.
+From PV Require Export Cbuf.CbufRing Cbuf.CbufInv Cbuf.CbufWrite Cbuf.CbufLines Cbuf.CbufFd.
 Local Open Scope N_scope.
+
+Lemma wl_tail (p2 : cbuf * N) (has_nl : bool) (len nd0 : N) : Inv (fst p2) ->
+  Inv (fst (let '(c2, d1) := p2 in
+            let '(c3, d2) := if has_nl then (c2, 0)
+                             else match write c2 [10] with (c', WOk _ d) => (c', d) | (c', _) => (c', 0) end in
+            (c3, WOk len (nd0 + d1 + d2)))).
+Proof.
+  destruct p2 as [c2 d1]. cbn [fst]. intros H. destruct has_nl; cbn [fst]; auto.
+  pose proof (inv_write c2 [10] H) as W. destruct (write c2 [10]) as [c' [? ?| |]]; cbn [fst] in *; auto.
+Qed.
+
+Lemma inv_write_line c str : Inv c -> Inv (fst (write_line c str)).
+Proof.
+  intros H. unfold write_line. cbv zeta.
+  match goal with |- context [if ?b then fst (grow c ?n) else c] => set (c1 := if b then fst (grow c n) else c) end.
+  assert (H1 : Inv c1). { unfold c1. destruct (_ && _)%bool; auto. apply grow_spec; auto. }
+  clearbody c1.
+  match goal with |- context [if ?b then (c1, WErr) else _] => destruct b end; [exact H1|].
+  apply wl_tail.
+  match goal with |- context [match ?s with [] => _ | _ :: _ => _ end] => destruct s eqn:Es end; [exact H1|].
+  rewrite <- Es. clear Es.
+  match goal with |- context [write c1 ?s] => pose proof (inv_write c1 s H1) as W; destruct (write c1 s) as [c' [? ?| |]] end;
+    cbn [fst] in *; auto.
+Qed.
